@@ -9,7 +9,8 @@ operators the registered C16 check does not use.
                           the assembler integrates (direction G)
   spec/AssemblyErr.tla    exact H0/H1/H2 errors and function integrals, the constrained dofs / values of the unit, slip and mean
                           filter assemblers, the block structure of the remaining common operators (direction G)
-  harness/c16x_*.cpp      (common/vasm16x.hpp, vasm16x_dom.hpp) execute the real classes on the mesh of the case and compare
+  harness/c16x_*.cpp      (common/vasm16x.hpp, vasm16x_dom.hpp) execute the real classes on the mesh of the case and compare;
+                          c16x_info.cpp: the result objects (ScalarErrorInfo, FunctionCellIntegralInfo) as values
 
 run_ext(chk) is the whole extension; checks/C16x.py calls nothing else, so the registered check can call it as well.
 """
@@ -23,7 +24,8 @@ MESHES = [("q11", "hypercube", 2, 0, 1), ("q22a", "hypercube", 2, 0, 3), ("q32",
           ("para", "hypercube", 2, 0, 3), ("t11", "simplex", 2, 0, 1), ("t22a", "simplex", 2, 0, 4), ("twotria", "simplex", 2, 0, 1),
           ("h111", "hypercube", 3, 0, 2), ("h211a", "hypercube", 3, 0, 4), ("h222a", "hypercube", 3, 1, 12),
           ("s111", "simplex", 3, 0, 4), ("s211a", "simplex", 3, 1, 8), ("hfrust", "hypercube", 3, 0, 5)]
-DOM_KINDS = ["err", "verr", "unit", "slip", "mean", "bop", "lb"]
+DOM_KINDS = ["err", "verr", "unit", "slip", "mean", "bop", "lb", "info"]
+MAXOPS = (4, 6)     # length bound of the histories of the selection machine (quick, thorough)
 
 
 def _cfg(name, text):
@@ -53,13 +55,13 @@ def _groups(tier, n):
 def generate(chk, tier):
     """TLC enumerates the cases (both modules, a few processes side by side); returns the list of cases"""
     t = 1 if tier == "thorough" else 0
-    nvar = 5 if t else 3
+    nvar = 6 if t else 3
     jobs = []
     for k, g in enumerate(_groups(t, 3)):
         sel = "{" + ", ".join('"%s"' % x for x in g) + "}"
         name = "gen_c16x_trace_%d_%d.cfg" % (os.getpid(), k)
-        _cfg(name, "SPECIFICATION Spec\nCONSTANTS Tier = %d\n MeshSel = %s\n NVariants = %d\n MaxOps = %d\n DegSlack = %d\n"
-                   "INVARIANTS MeshLaws CompLaw NormalLaw Emit\nVIEW View\nCHECK_DEADLOCK FALSE\n" % (t, sel, nvar, 5 if t else 4, 1 if t else 0))
+        _cfg(name, "SPECIFICATION Spec\nCONSTANTS Tier = %d\n MeshSel = %s\n NVariants = %d\n MaxOps = %d\n DegSlack = %d\n CanonLen = %d\n"
+                   "INVARIANTS MeshLaws CompLaw NormalLaw Emit\nVIEW View\nCHECK_DEADLOCK FALSE\n" % (t, sel, nvar, MAXOPS[t], 1 if t else 0, 3 if t else 2))
         jobs.append(("AssemblyTrace", name, "trace " + " ".join(g)))
     for k, g in enumerate(_groups(t, 2)):
         sel = "{" + ", ".join('"%s"' % x for x in g) + "}"
@@ -102,6 +104,8 @@ def sig_of(c, r):
         s["cleared"] = bool(any(o["op"] == "clear" for o in c["hist"]))
         # operations recorded before a clear() in the history: the mask the assembler had when it was cleared
         s["masked_before_clear"] = bool(any(o["op"] in ("part", "facet") for o in c["hist"][:next((i for i, o in enumerate(c["hist"]) if o["op"] == "clear"), 0)]))
+    if c["kind"] == "info":
+        s["cls"] = c["cls"]; s["how"] = c["how"]
     if c["kind"] == "bop":
         s["op"] = "%s%d" % (c["op"]["name"], c["op"]["nsc"])
         s["row"] = c["row"]
@@ -111,7 +115,7 @@ def sig_of(c, r):
 def run_ext(chk):
     tier = chk.tier
     t0 = time.time()
-    names = ["c16x_" + s for s in SHAPES.values()] + ["c16x_d" + s for s in SHAPES.values()]
+    names = ["c16x_" + s for s in SHAPES.values()] + ["c16x_d" + s for s in SHAPES.values()] + ["c16x_info"]
     paths = dict(zip(names, vlib.build(names, jobs=4)))
     t1 = time.time()
     cases = generate(chk, tier)
@@ -125,7 +129,7 @@ def run_ext(chk):
         key = (c["mesh"]["shape"], c["mesh"]["dim"])
         if key not in SHAPES:
             raise vlib.MachineryError("no harness for %s" % (key,))
-        b = ("c16x_" if c["kind"] in ("sel", "trace") else "c16x_d") + SHAPES[key]
+        b = "c16x_info" if c["kind"] == "info" else ("c16x_" if c["kind"] in ("sel", "trace") else "c16x_d") + SHAPES[key]
         perbin.setdefault(b, []).append(c)
     margin = 0.0
     kinds = {}
@@ -156,11 +160,11 @@ def run_ext(chk):
     rule = ("C16x: TLC enumerates (spec/AssemblyTrace.tla) every history of at most %d operations of the TraceAssembler selection machine "
             "(two overlapping boundary parts, a boundary facet, an inner facet, compile, the four compile_all_facets, clear) on every mesh "
             "of spec/AsmXMesh.tla in its variants -- one witness history per distinct machine state -- and, for the compiled lists reached "
-            "by at most two operations, every space pair x every monomial pair of total degree <= 4 with the exact integrals; and "
+            "by at most two (thorough: three) operations, every space pair x every monomial pair of total degree <= 4 with the exact integrals; and "
             "(spec/AssemblyErr.tla) every mesh x space x analytic / discrete polynomial pair with the exact H0/H1/H2 errors and function "
             "integrals, every mesh part x space x boundary function of the filter assemblers, every blocked operator with its block structure; "
             "one evaluation = one case executed on the real classes; distinct = case id (mesh, variant, kind, history / job)"
-            % (5 if tier == "thorough" else 4))
+            % MAXOPS[1 if tier == "thorough" else 0])
     chk.rule = (chk.rule + "  ||  " + rule) if chk.rule else rule
     chk.assumptions += [
         "C16x: predicted values are exact (rationals, square roots of integers symbolic); the harness evaluates them in long double and "
